@@ -18,7 +18,7 @@ def op(name, a=0, b=0):
 
 LINKS = ["never", "adopted_then_unadopted", "adopts_peer", "adopted_by_peer", "mutual", "self_clone", "ring3"]
 WEAKS = ["none", "one_outside", "two_outside", "stored_in_self", "stored_in_peer"]
-CALLS = ["TryUnwrap", "MakeMut", "MakeMutS", "GetMut", "raw_dec", "raw_roundtrip"]
+CALLS = ["TryUnwrap", "MakeMut", "MakeMutS", "MakeMutP", "GetMut", "raw_dec", "raw_roundtrip"]
 
 
 def build(link, weak, call):
